@@ -76,7 +76,8 @@ ENTRIES = {
     "accelerated_gradient_strongly_convex": E(U, "wc_accelerated_gradient_strongly_convex", "upper", _mu_L_n(mus=(0.1,), ns=(1, 3))),
     "accelerated_proximal_point": E(U, "wc_accelerated_proximal_point", "upper",
                                     [dict(A0=A0, gammas=[g] * n, n=n) for A0 in (1.0, 5.0) for g in (1.0, 0.5) for n in (1, 3)]
-                                    + [dict(A0=A0, gammas=gs, n=3) for A0 in (1.0, 5.0) for gs in ([3.0, 1.0, 0.3], [0.3, 1.0, 3.0])]),
+                                    + [dict(A0=A0, gammas=gs, n=3) for A0 in (1.0, 5.0) for gs in ([3.0, 1.0, 0.3], [0.3, 1.0, 3.0])]
+                                    + [dict(A0=50.0, gammas=[1.0] * 10, n=10), dict(A0=5.0, gammas=[2.0] * 12, n=12)]),
     "heavy_ball_momentum": E(U, "wc_heavy_ball_momentum", "upper",
                              [dict(mu=mu, L=L, alpha=a / L, beta=math.sqrt((1 - a / L * mu) * (1 - a)), n=n) for mu, L in ((0.1, 1.0),) for a in (0.5, 0.25) for n in (1, 3)]
                              + [dict(mu=mu, L=L, alpha=a / L, beta=math.sqrt((1 - a / L * mu) * (1 - a)), n=n)
